@@ -327,7 +327,7 @@ func c12Variant(t *rapid.T, base *Call, regen func() (desc.V, bool)) *Call {
 		cp.Unscoped, cp.PerType, cp.CallFns = nil, nil, nil
 	case 4:
 		if len(cp.PerType) == 0 {
-			cp.Tag = rapid.SampledFrom([]string{"", "alipay", "wechat", emptyTag}).Draw(t, "retag")
+			cp.Tag = rapid.SampledFrom([]string{"", "alipay", "wechat", emptyTag, "Valid"}).Draw(t, "retag")
 		}
 	case 5:
 		if v, ok := regen(); ok {
@@ -453,7 +453,7 @@ func genC12Case(t *rapid.T) *C12Case {
 					}
 				}
 			}
-			if tag := rapid.SampledFrom(multiTags).Draw(t, "tag"); tag != "valid" {
+			if tag := rapid.SampledFrom(callTags).Draw(t, "tag"); tag != "valid" {
 				s.Tag = tag
 			}
 			s.pickEntry(rapid.IntRange(0, 7).Draw(t, "entry"))
